@@ -73,8 +73,9 @@ def _one(prop, tier):
             param_used(ctx, f"{prop}.param-used", files)
             from .rules.common_pitfalls import pitfalls
             pitfalls(ctx, f"{prop}.pitfalls", files)
-            from .rules.common_params import option_forwarding
+            from .rules.common_params import option_forwarding, attribute_swap
             option_forwarding(ctx, f"{prop}.param-used", files)
+            attribute_swap(ctx, f"{prop}.attr-swap", files)
 
     return run_property(prop, tier, rules, ev, selftest)
 
